@@ -5712,12 +5712,29 @@ def merge_parts(parts, reassign="voice"):
     return new_part
 
 
+def _rest_symbolic_durations(part, dur, t):
+    """Symbolic duration for a rest of `dur` divisions starting at time `t`: a dict, or a
+    tuple of dicts (pieces to be chained) when every piece is a whole number of
+    divisions under the divisions in force at `t`. Returns (symbolic, divs)."""
+    divs = int(part.quarter_duration_map(t))
+    sym_dur = estimate_symbolic_duration(dur, divs, return_com_durations=True)
+    if isinstance(sym_dur, tuple):
+        pieces = [symbolic_to_numeric_duration(sd, divs) for sd in sym_dur]
+        if any(abs(p - round(p)) > 1e-9 for p in pieces):
+            # not expressible on this timeline: one rest without a single notated value
+            sym_dur = {}
+    return sym_dur, divs
+
+
 def _fill_rests_within_measure(measure: Measure, part: Part) -> None:
     start_time = measure.start.t
     end_time = measure.end.t
     notes = np.array(
         list(part.iter_all(GenericNote, start_time, end_time, include_subclasses=True))
     )
+    if len(notes) == 0:
+        # nothing starts in this measure: no voice to complete
+        return
 
     # voc_staff is now transformed to only voice
     voc_staff = np.array([[n.voice, n.staff] for n in notes])
@@ -5728,17 +5745,13 @@ def _fill_rests_within_measure(measure: Measure, part: Part) -> None:
         for staff in range(1, part.number_of_staves + 1):
             if staff not in unique_staff:
                 # solution when estimation returns composite durations.
-                sym_dur = estimate_symbolic_duration(
-                    end_time - start_time,
-                    part._quarter_durations[0],
-                    return_com_durations=True,
+                sym_dur, divs = _rest_symbolic_durations(
+                    part, end_time - start_time, start_time
                 )
                 if isinstance(sym_dur, tuple):
                     st = start_time
-                    for i, sd in enumerate(sym_dur):
-                        et = start_time + symbolic_to_numeric_duration(
-                            sd, part._quarter_durations[0]
-                        )
+                    for sd in sym_dur:
+                        et = st + int(round(symbolic_to_numeric_duration(sd, divs)))
                         rest = Rest(
                             symbolic_duration=sd, staff=staff, voice=un_voice.max() + 1
                         )
@@ -5760,18 +5773,14 @@ def _fill_rests_within_measure(measure: Measure, part: Part) -> None:
         # get note with min start.t and fill the rest before it if needed
         min_start_note = notes_per_vocstaff[sort_note_start[0]]
         if min_start_note.start.t > start_time:
-            sym_dur = estimate_symbolic_duration(
-                min_start_note.start.t - start_time,
-                part._quarter_durations[0],
-                return_com_durations=True,
+            sym_dur, divs = _rest_symbolic_durations(
+                part, min_start_note.start.t - start_time, start_time
             )
             # solution when estimation returns composite durations.
             if isinstance(sym_dur, tuple):
                 st = start_time
                 for i, sd in enumerate(sym_dur):
-                    et = st + symbolic_to_numeric_duration(
-                        sd, part._quarter_durations[0]
-                    )
+                    et = st + int(round(symbolic_to_numeric_duration(sd, divs)))
                     rest = Rest(
                         symbolic_duration=sd,
                         staff=min_start_note.staff,
@@ -5790,18 +5799,14 @@ def _fill_rests_within_measure(measure: Measure, part: Part) -> None:
         # get note with max end.t and fill the rest after it if needed
         min_end_note = notes_per_vocstaff[sort_note_end[-1]]
         if min_end_note.end.t < end_time:
-            sym_dur = estimate_symbolic_duration(
-                end_time - min_end_note.end.t,
-                part._quarter_durations[0],
-                return_com_durations=True,
+            sym_dur, divs = _rest_symbolic_durations(
+                part, end_time - min_end_note.end.t, min_end_note.end.t
             )
             # solution when estimation returns composite durations.
             if isinstance(sym_dur, tuple):
                 st = min_end_note.end.t
                 for i, sd in enumerate(sym_dur):
-                    et = st + symbolic_to_numeric_duration(
-                        sd, part._quarter_durations[0]
-                    )
+                    et = st + int(round(symbolic_to_numeric_duration(sd, divs)))
                     rest = Rest(
                         symbolic_duration=sd,
                         staff=min_end_note.staff,
@@ -5825,18 +5830,16 @@ def _fill_rests_within_measure(measure: Measure, part: Part) -> None:
                 notes_per_vocstaff[sort_note_start[i]].start.t
                 > notes_per_vocstaff[sort_note_end[i - 1]].end.t
             ):
-                sym_dur = estimate_symbolic_duration(
+                sym_dur, divs = _rest_symbolic_durations(
+                    part,
                     notes_per_vocstaff[sort_note_start[i]].start.t
                     - notes_per_vocstaff[sort_note_end[i - 1]].end.t,
-                    part._quarter_durations[0],
-                    return_com_durations=True,
+                    notes_per_vocstaff[sort_note_end[i - 1]].end.t,
                 )
                 if isinstance(sym_dur, tuple):
                     st = notes_per_vocstaff[sort_note_end[i - 1]].end.t
                     for i, sd in enumerate(sym_dur):
-                        et = st + symbolic_to_numeric_duration(
-                            sd, part._quarter_durations[0]
-                        )
+                        et = st + int(round(symbolic_to_numeric_duration(sd, divs)))
                         rest = Rest(
                             symbolic_duration=sd,
                             staff=notes_per_vocstaff[sort_note_end[i - 1]].staff,
@@ -5878,7 +5881,8 @@ def _fill_rests_global(
         ]
         if min_start_note.start.t > start_time:
             sym_dur = estimate_symbolic_duration(
-                min_start_note.start.t - start_time, part._quarter_durations[0]
+                min_start_note.start.t - start_time,
+                int(part.quarter_duration_map(start_time)),
             )
             rest = Rest(
                 symbolic_duration=sym_dur,
@@ -5892,7 +5896,8 @@ def _fill_rests_global(
         ]
         if min_end_note.end.t < end_time:
             sym_dur = estimate_symbolic_duration(
-                end_time - min_end_note.end.t, part._quarter_durations[0]
+                end_time - min_end_note.end.t,
+                int(part.quarter_duration_map(min_end_note.end.t)),
             )
             rest = Rest(
                 symbolic_duration=sym_dur,
@@ -5914,7 +5919,7 @@ def _fill_rests_global(
             diff = np.setdiff1d(y_sa, x_sa)
         for voice, staff in diff:
             sym_dur = estimate_symbolic_duration(
-                end_time - start_time, part._quarter_durations[0]
+                end_time - start_time, int(part.quarter_duration_map(start_time))
             )
             rest = Rest(symbolic_duration=sym_dur, staff=staff, voice=voice)
             part.add(rest, start_time, end_time)
